@@ -4,7 +4,7 @@
 // cross_chain_manager.ImportExTransfer is driven on main-net configuration through all sequences (BFS, depth
 // quick 4 / thorough 5, deduplicated on the real state dump) of submissions
 //
-//	(source chain ∈ {S1,S2}) × (cross-chain id ∈ {x,y}) × (variant) × (relayer ∈ {0,1})
+//	((chain,id) ∈ {S1/x, S1/y, S2/x}) × (variant) × (relayer ∈ {0,1}; second relayer for same/height/altproof)
 //
 // variant ∈ {same, height (other claimed height), altproof (other valid proof bytes), altmsg (other valid
 // message carrying the same cross-chain id), bad (invalid authentication)} as far as the router has them.
@@ -90,12 +90,17 @@ func main() {
 		init := state{D: w.Dump(), Done: map[string]bool{}}
 		w.Close()
 		var events []string
-		for _, c := range []uint64{S1, S2} {
-			for i := range ccids {
-				for _, v := range a.Variants() {
-					for rel := 0; rel < 2; rel++ {
-						events = append(events, fmt.Sprintf("%d/%d/%s/%d", c, i, v, rel))
-					}
+		// (chain,id) pairs: S1/x, S1/y, S2/x (same id on two chains, two ids on one chain); the second relayer
+		// (other voters / other account) only for the variants where it yields a different transaction set of
+		// the same message (same, height, altproof).
+		for _, ci := range [][2]int{{S1, 0}, {S1, 1}, {S2, 0}} {
+			for _, v := range a.Variants() {
+				nrel := 2
+				if v == ccm.VAltMsg || v == ccm.VBad {
+					nrel = 1
+				}
+				for rel := 0; rel < nrel; rel++ {
+					events = append(events, fmt.Sprintf("%d/%d/%s/%d", ci[0], ci[1], v, rel))
 				}
 			}
 		}
@@ -189,7 +194,10 @@ func main() {
 						r.Violation("C20/"+a.Name()+"/fresh-valid-message-rejected/"+variant, det)
 					case !sub.Valid:
 						r.Class("invalid-rejected")
-						if !lastUnchanged || last.OK {
+						if last.OK { // outsider vote on an already released vote id: success without effect (Status flag)
+							r.Class("invalid-noop-success")
+						}
+						if !lastUnchanged {
 							r.Violation("C20/"+a.Name()+"/invalid-submission-left-trace", det)
 						}
 					default: // replay of a done (chain,id): the completing tx must leave no trace
